@@ -16,6 +16,7 @@ import (
 	"os"
 	"reflect"
 	"sort"
+	"strconv"
 	"testing"
 	"time"
 
@@ -166,8 +167,56 @@ func vsGroupAbstract(id string, g *metadatapb.ConsumerGroup) int {
 	return -1
 }
 
-// vsToolRead: everything readable from the store over the schedule's name domain (+ the raw etcd keyspace).
+// vsRawMem reads the in-memory store's private maps by reflection (read-only; the harness is sequential): the key
+// sets of topicConfigs / consumerGroups and the entries of offsets / consumerOffsets / consumerMeta.  This is the
+// in-memory counterpart of the raw etcd key dump: it does not go through any Store method, so a read method that
+// writes (e.g. FetchTopicConfig persisting a derived default) cannot hide its own effect.
+func vsRawMem(s metadata.Store) []any {
+	mem, ok := s.(*metadata.InMemoryStore)
+	if !ok {
+		return []any{}
+	}
+	out := []any{}
+	v := reflect.ValueOf(mem).Elem()
+	for _, name := range []string{"topicConfigs", "consumerGroups", "offsets", "consumerOffsets", "consumerMeta"} {
+		f := v.FieldByName(name)
+		if !f.IsValid() || f.Kind() != reflect.Map {
+			out = append(out, []any{name, "field not found"})
+			continue
+		}
+		rows := []string{}
+		for _, k := range f.MapKeys() {
+			row := k.String()
+			switch e := f.MapIndex(k); e.Kind() {
+			case reflect.Int64:
+				row += "=" + strconv.FormatInt(e.Int(), 10)
+			case reflect.String:
+				row += "=" + e.String()
+			}
+			rows = append(rows, row)
+		}
+		sort.Strings(rows)
+		out = append(out, []any{name, rows})
+	}
+	return out
+}
+
+// vsToolRead: the raw state first (etcd keyspace with mod revisions / the in-memory maps), then everything readable
+// through the Store interface over the schedule's name domain.  FetchTopicConfig is deliberately NOT part of it (it is
+// read once at the end of a schedule, see vsCfgRead).
 func vsToolRead(t *testing.T, ctx context.Context, s metadata.Store, admin *clientv3.Client, sc *vsToolSched) map[string]any {
+	kv := [][]any{}
+	if admin != nil {
+		resp, err := admin.Get(ctx, "/kafscale/", clientv3.WithPrefix())
+		if err != nil {
+			t.Fatalf("etcd dump: %v", err)
+		}
+		for _, e := range resp.Kvs {
+			sum := sha1.Sum(e.Value)
+			kv = append(kv, []any{string(e.Key), e.ModRevision, hex.EncodeToString(sum[:])})
+		}
+	}
+	rawmem := vsRawMem(s)
 	meta, err := s.Metadata(ctx, nil)
 	if err != nil {
 		t.Fatalf("Metadata: %v", err)
@@ -211,27 +260,27 @@ func vsToolRead(t *testing.T, ctx context.Context, s metadata.Store, admin *clie
 		b, _ := json.Marshal(olist[j])
 		return string(a) < string(b)
 	})
-	groups, graw := [][]any{}, []any{}
-	for _, g := range sc.Groups {
-		grp, err := s.FetchConsumerGroup(ctx, g)
-		if err != nil {
-			t.Fatalf("FetchConsumerGroup: %v", err)
-		}
-		groups = append(groups, []any{g, vsGroupAbstract(g, grp)})
-		if grp != nil {
-			graw = append(graw, vsGroupProj(grp))
-		}
-	}
+	// groups are observed through ListConsumerGroups only: FetchConsumerGroup is a method the tools call themselves,
+	// so it is kept out of the before/after reads (it is read once at the end of a schedule, see vsCfgRead)
 	gl, err := s.ListConsumerGroups(ctx)
 	if err != nil {
 		t.Fatalf("ListConsumerGroups: %v", err)
 	}
-	glist := []string{}
+	sort.Slice(gl, func(i, j int) bool { return gl[i].GetGroupId() < gl[j].GetGroupId() })
+	groups, graw, glist := [][]any{}, []any{}, []string{}
 	for _, g := range gl {
+		groups = append(groups, []any{g.GetGroupId(), vsGroupAbstract(g.GetGroupId(), g)})
+		graw = append(graw, vsGroupProj(g))
 		b, _ := json.Marshal(vsGroupProj(g))
 		glist = append(glist, string(b))
 	}
-	sort.Strings(glist)
+	return map[string]any{"topics": topics, "porder": porder, "next": next, "coff": coff, "olist": olist, "groups": groups, "graw": graw, "glist": glist,
+		"kv": kv, "rawmem": rawmem}
+}
+
+// vsCfgRead reads every topic configuration and every group of the domain through FetchTopicConfig /
+// FetchConsumerGroup (end of a schedule only).
+func vsCfgRead(ctx context.Context, s metadata.Store, sc *vsToolSched) map[string]any {
 	cfgs, craw := [][]any{}, []any{}
 	for _, tp := range sc.Topics {
 		cfg, err := s.FetchTopicConfig(ctx, tp)
@@ -242,19 +291,19 @@ func vsToolRead(t *testing.T, ctx context.Context, s metadata.Store, admin *clie
 		cfgs = append(cfgs, []any{tp, "ok", vsCfgAbstract(tp, cfg)})
 		craw = append(craw, vsCfgProj(cfg))
 	}
-	kv := [][]any{}
-	if admin != nil {
-		resp, err := admin.Get(ctx, "/kafscale/", clientv3.WithPrefix())
+	groups, graw := [][]any{}, []any{}
+	for _, g := range sc.Groups {
+		grp, err := s.FetchConsumerGroup(ctx, g)
 		if err != nil {
-			t.Fatalf("etcd dump: %v", err)
+			groups = append(groups, []any{g, -2})
+			continue
 		}
-		for _, e := range resp.Kvs {
-			sum := sha1.Sum(e.Value)
-			kv = append(kv, []any{string(e.Key), e.ModRevision, hex.EncodeToString(sum[:])})
+		groups = append(groups, []any{g, vsGroupAbstract(g, grp)})
+		if grp != nil {
+			graw = append(graw, vsGroupProj(grp))
 		}
 	}
-	return map[string]any{"topics": topics, "porder": porder, "next": next, "coff": coff, "olist": olist, "groups": groups, "graw": graw, "glist": glist,
-		"cfgs": cfgs, "craw": craw, "kv": kv}
+	return map[string]any{"cfgs": cfgs, "craw": craw, "groups": groups, "graw": graw}
 }
 
 // vsToolArgs maps an abstract argument shape to concrete tool arguments. "known" names a topic of the initial
@@ -475,6 +524,11 @@ func TestVerifStoreToolsReplay(t *testing.T) {
 			}
 			emit(line)
 		}
+		fin := map[string]any{"ev": "FinalCfg"}
+		for name, side := range sides {
+			fin[name] = vsCfgRead(ctx, side.store, &s)
+		}
+		emit(fin)
 		for _, side := range sides {
 			side.session.Close()
 		}
